@@ -13,7 +13,6 @@ import z3
 
 EXTERNAL = [
     ("z3-4.8.12", ["/usr/bin/z3", "-smt2"], "z3"),
-    ("z3-new", ["z3-new", "-smt2"], "z3"),
     ("cvc5-1.0.3", ["/usr/bin/cvc5", "--lang=smt2", "--produce-models"], "cvc5"),
 ]
 
@@ -90,7 +89,7 @@ def parse_model(text):
 
 
 class Portfolio:
-    def __init__(self, inproc_ms=5000, external_s=30, use_external=True, workdir=None):
+    def __init__(self, inproc_ms=2500, external_s=30, use_external=True, workdir=None):
         self.inproc_ms = inproc_ms
         self.external_s = external_s
         self.use_external = use_external
